@@ -405,7 +405,7 @@ func runC06(a vh.Args, o *vh.Oracle, r *vh.Result) error {
 	exhaustiveLimit := 14
 	randomSets := 8
 	if thorough {
-		inputs = 8
+		inputs = 16
 		exhaustiveLimit = 60
 		randomSets = 25
 	}
